@@ -1,11 +1,13 @@
 //! PipeBmp engine: the composition BMP state machine ∘ RIB unit on the real code.
 //!
-//! One case = a whole history over several router connections sharing one real `ingress::Register`:
+//! One case = a whole history over several router connections of one real `bmp-tcp-in` unit
+//! (`rotonda::verif::bmp_conn::World`: the real accept loop `BmpTcpInRunner::run` — `find_or_register_bmp_router`,
+//! `router_connected` — and per connection the real `RouterHandler::read_from_router` on an in-memory reader):
 //!   real BMP bytes (Initiation, Peer Up ± Graceful Restart, Route Monitoring with announcements /
-//!   withdrawals / End-of-RIB markers / damaged UPDATEs, Peer Down, Statistics, Termination, a new connection)
-//!   -> real `BmpState::process_msg` (`BmpStepper`) -> every emitted `Update` -> real
-//!   `RibUnitRunner::process_update` -> real `Rib::match_prefix` for the 12 pool prefixes, after every
-//!   session-level withdrawal and at the end.
+//!   withdrawals / End-of-RIB markers / damaged UPDATEs, Peer Down, Statistics, Termination), a new connection,
+//!   **end of input without a Termination** (the handler's epilogue `WithdrawBulk(ids_for_parent)` + EndOfStream)
+//!   -> every `Update` leaving the unit's real gate, in order -> real `RibUnitRunner::process_update` -> real
+//!   `Rib::match_prefix` for the 12 pool prefixes, after every session-level withdrawal and at the end.
 //! case   `P|<prefixes>|<events>|<scenario>`: events carry, per Route Monitoring message, what the real
 //!        parser reported (`bmp::rm_fields`) and the route content that was encoded; the Lean driver
 //!        `rmodel-pipebmp` runs `Model/PipeBmp.lean` (`Bmp.step` feeding `Rib.apply`, ids from the modelled
@@ -23,18 +25,16 @@
 //!        A deviation is reported under a known signature only if exactly that defect's semantics
 //!        reproduces every compared answer of the case.
 use std::collections::{BTreeMap, HashMap};
-use std::net::{IpAddr, Ipv4Addr};
-use std::sync::Arc;
-use std::time::Instant;
+use std::net::{IpAddr, Ipv4Addr, SocketAddr};
+use std::time::{Duration, Instant};
 
 use bytes::Bytes;
 use rotonda::bgp::encode::{
-    mk_initiation_msg, mk_peer_down_notification_msg, mk_peer_up_notification_msg, mk_raw_route_monitoring_msg,
+    mk_initiation_msg, mk_peer_down_notification_msg, mk_raw_route_monitoring_msg,
     mk_statistics_report_msg, mk_termination_msg,
 };
 use rotonda::payload::Update;
-use rotonda::verif::bmp_sm::{BmpStepper, StepOutcome};
-use rotonda::verif::ingress as ving;
+use rotonda::verif::bmp_conn::{Conn, Item, TracingMode, World};
 use routecore::bmp::message::Message as BmpMsg;
 use verif_harness::bmp::{rm_fields, summarize};
 use verif_harness::rib::*;
@@ -59,7 +59,7 @@ struct RmSpec { upd: Upd, mark: bool }
 enum M { Init, Term, PeerUp(usize), PeerDown(usize), Stats(usize), Rm(usize, RmSpec) }
 
 #[derive(Clone, Debug, PartialEq)]
-enum Op { Connect(usize), Msg(usize, M) }
+enum Op { Connect(usize), Msg(usize, M), Disconnect(usize) }
 
 #[derive(Clone, Debug, PartialEq)]
 struct Scn { routers: Vec<RouterSpec>, ops: Vec<Op> }
@@ -101,6 +101,7 @@ fn parse_ops(evs: &str) -> Option<Vec<Op>> {
         if let Some(rest) = t.strip_prefix("c.") { return Some(Op::Connect(rest.split('.').next()?.parse().ok()?)); }
         let (i, m) = t.split_once(':')?;
         let i: usize = i.parse().ok()?;
+        if m == "x" { return Some(Op::Disconnect(i)); }
         let parts: Vec<&str> = m.split('~').collect();
         let hd: Vec<&str> = parts[0].split('.').collect();
         let h = || -> Option<usize> { hd.get(1)?.parse().ok() };
@@ -141,7 +142,9 @@ fn rm_pdu(s: &RmSpec) -> Option<(Vec<u8>, Vec<u8>)> {
 
 // ------------------------------------------------------------------ running one scenario on the real code
 
-struct Session { router: usize, stepper: BmpStepper }
+/// One accepted connection of the real unit: the harness' end of the in-memory connection, the router ingress
+/// id the real accept loop gave it, and whether its handler task has ended.
+struct Session { router: usize, conn: Conn, rid: u32, closed: bool }
 
 type Snap = Vec<Vec<(u32, char, String)>>;
 
@@ -172,11 +175,20 @@ fn key_class(tab: &mut Vec<(u8, Ipv4Addr, u32, u8)>, k: (u8, Ipv4Addr, u32, u8))
     match tab.iter().position(|x| *x == k) { Some(p) => 100 + p, None => { tab.push(k); 100 + tab.len() - 1 } }
 }
 
+const SHARED_SIG: &str = "identity:routers-from-one-address-share-router-id";
+
+static NEXT_PORT: std::sync::atomic::AtomicU32 = std::sync::atomic::AtomicU32::new(0);
+
 fn run_scn(scn: &Scn, queries: &[Pfx]) -> Outcome {
     let mut rib = RealRib::new();
-    let register = Arc::new(ving::new_register());
-    let unit_id = ving::register(&register);
-    let metrics_src = BmpStepper::new();
+    // the real unit: accept loop (`BmpTcpInRunner::run`: find_or_register_bmp_router, router_connected) and, per
+    // connection, the real `RouterHandler::read_from_router` (framing, process_msg, the epilogue) on an in-memory reader;
+    // a direct link on the unit's real gate collects every `Update` in order
+    let rt = tokio::runtime::Builder::new_multi_thread().worker_threads(1).enable_all().build().unwrap();
+    let w = rt.block_on(World::new(true, None, TracingMode::Off));
+    let register = w.register.clone();
+    let settle = |c: &Conn| -> Option<bool> { rt.block_on(async { tokio::time::timeout(Duration::from_secs(10), c.settled()).await.ok() }) };
+    let drain = |w: &World| -> Vec<Update> { std::mem::take(&mut *w.sink.updates.lock().unwrap()) };
     let mut sessions: Vec<Session> = vec![];
     let mut osess: Vec<OSess> = vec![];
     let mut keytab: Vec<(u8, Ipv4Addr, u32, u8)> = vec![];
@@ -185,149 +197,203 @@ fn run_scn(scn: &Scn, queries: &[Pfx]) -> Outcome {
     let mut notes: Vec<String> = vec![];
     let mut fails: Vec<String> = vec![];
     let mut snaps: Vec<String> = vec![];
-    let mut evs: Vec<Ev> = vec![];                  // the oracle's RIB history
-    let mut checkpoints: Vec<(usize, Snap)> = vec![]; // (number of oracle events so far, real snapshot)
+    let mut evs: Vec<Ev> = vec![];                  // the oracle's RIB history: what the property asks for
+    let mut evs_code: Vec<Ev> = vec![];             // the same with, at every session end, the ids the code named
+    let mut checkpoints: Vec<(usize, usize, Snap)> = vec![]; // (oracle events so far, in evs / evs_code, real snapshot)
     let mut swallowed: Vec<usize> = vec![];         // oracle events (UPDATEs with an End-of-RIB marker next to routes) for which nothing was emitted
+    let mut shared_seen = false;
     for op in &scn.ops {
-        match op {
+        // ---- which connection, which bytes
+        let (i, m): (usize, Option<&M>) = match op {
             Op::Connect(r) => {
                 let Some(rs) = scn.routers.get(*r) else { continue };
-                let ip = IpAddr::V4(Ipv4Addr::new(203, 0, 113, rs.addr));
-                // bmp_tcp_in/unit.rs:422-431 with the real register function
-                let id = ving::find_or_register_bmp_router(&register, ving::IngressInfo::new().with_parent(unit_id).with_remote_addr(ip));
-                let stepper = BmpStepper::with_parts(register.clone(), id, &format!("r{r}"), metrics_src.sm_metrics());
-                sessions.push(Session { router: *r, stepper });
+                let port = 1024 + (NEXT_PORT.fetch_add(1, std::sync::atomic::Ordering::SeqCst) % 60000) as u16;
+                let addr = SocketAddr::new(IpAddr::V4(Ipv4Addr::new(203, 0, 113, rs.addr)), port);
+                let conn = match rt.block_on(async { tokio::time::timeout(Duration::from_secs(10), w.connect(addr)).await }) {
+                    Ok(c) => c,
+                    Err(_) => { fails.push("engine-stuck accept".into()); break }
+                };
+                let rid = w.router_ingress_id(addr.ip()).unwrap_or(0);
+                if rid == 0 { fails.push("lifecycle:accepted-connection-has-no-router-ingress-id".into()); }
+                if !drain(&w).is_empty() { fails.push("lifecycle:update-sent-on-accept".into()); }
+                sessions.push(Session { router: *r, conn, rid, closed: false });
                 osess.push(OSess::default());
                 let keys: Vec<usize> = rs.peers.iter().map(|p| { let b = peer_of(p); key_class(&mut keytab, (rs.addr, b.addr, b.asn, if b.peer_type == 3 { 2 } else if b.flags & 0x10 != 0 { 1 } else { 0 })) }).collect();
                 tokens.push(format!("c.{}.{}", r, if keys.is_empty() { "-".to_string() } else { join(keys.iter(), ",") }));
-                info.push(format!("c{id}"));
+                info.push(format!("c{rid}"));
                 notes.push("connect".into());
+                continue;
             }
-            Op::Msg(i, m) => {
-                let h = match m { M::PeerUp(h) | M::PeerDown(h) | M::Stats(h) | M::Rm(h, _) => Some(*h), _ => None };
-                let npeers = sessions.get(*i).map(|s| scn.routers[s.router].peers.len()).unwrap_or(usize::MAX);
-                if let Some(h) = h { if npeers != usize::MAX && h >= npeers { continue; } }
-                // ---- bytes and token
-                let sess_router: Option<usize> = sessions.get(*i).map(|s| s.router);
-                let peer = |h: usize| -> BmpPeer { match sess_router { Some(r) => peer_of(&scn.routers[r].peers[h]), None => BmpPeer::plain(h as u32) } };
-                let (bytes, token, wellformed_rm): (Bytes, String, Option<(u32, Upd)>) = match m {
-                    M::Init => (mk_initiation_msg("verif-router", "verif"), "i".into(), None),
-                    M::Term => (mk_termination_msg(), "t".into(), None),
-                    M::PeerDown(h) => (mk_peer_down_notification_msg(&peer(*h).pph()), format!("d.{h}"), None),
-                    M::Stats(h) => (mk_statistics_report_msg(&peer(*h).pph()), format!("s.{h}"), None),
-                    M::PeerUp(h) => {
-                        let b = BmpRouter::peer_up_msg(&peer(*h));
-                        let (gr, c4) = match BmpMsg::from_octets(b.clone()) {
-                            Ok(BmpMsg::PeerUpNotification(pu)) => (pu.bgp_open_rcvd().capabilities().any(|c| c.typ() == routecore::bgp::message::open::CapabilityType::GracefulRestart), pu.session_config().four_octet_enabled()),
-                            _ => (false, true),
-                        };
-                        (b, format!("u.{h}.{}.{}", gr as u8, c4 as u8), None)
-                    }
-                    M::Rm(h, spec) => {
-                        let Some((pdu, pas)) = rm_pdu(spec) else { continue };
-                        let b = mk_raw_route_monitoring_msg(&peer(*h).pph(), Bytes::from(pdu));
-                        let Some(f) = rm_fields(&b) else { continue };
-                        let content = if spec.upd.corrupt != 0 { "M".to_string() } else { format!("{};{};{}", spec.upd.attr, show_nlris(&spec.upd.ann), show_nlris(&spec.upd.wd)) };
-                        if spec.upd.corrupt == 0 && !spec.upd.ann.is_empty() { rib.blobs.insert(pas, spec.upd.attr); }
-                        (b, format!("r.{h}~{f}~{content}~{}", show_rmspec(spec)), if spec.upd.corrupt == 0 { Some((0, spec.upd.clone())) } else { None })
-                    }
+            Op::Disconnect(i) => (*i, None),
+            Op::Msg(i, m) => (*i, Some(m)),
+        };
+        let h = match m { Some(M::PeerUp(h)) | Some(M::PeerDown(h)) | Some(M::Stats(h)) | Some(M::Rm(h, _)) => Some(*h), _ => None };
+        let npeers = sessions.get(i).map(|s| scn.routers[s.router].peers.len()).unwrap_or(usize::MAX);
+        if let Some(h) = h { if npeers != usize::MAX && h >= npeers { continue; } }
+        let sess_router: Option<usize> = sessions.get(i).map(|s| s.router);
+        let peer = |h: usize| -> BmpPeer { match sess_router { Some(r) => peer_of(&scn.routers[r].peers[h]), None => BmpPeer::plain(h as u32) } };
+        let (bytes, token, wellformed_rm): (Option<Bytes>, String, Option<(u32, Upd)>) = match m {
+            None => (None, "x".into(), None),
+            Some(M::Init) => (Some(mk_initiation_msg("verif-router", "verif")), "i".into(), None),
+            Some(M::Term) => (Some(mk_termination_msg()), "t".into(), None),
+            Some(M::PeerDown(h)) => (Some(mk_peer_down_notification_msg(&peer(*h).pph())), format!("d.{h}"), None),
+            Some(M::Stats(h)) => (Some(mk_statistics_report_msg(&peer(*h).pph())), format!("s.{h}"), None),
+            Some(M::PeerUp(h)) => {
+                let b = BmpRouter::peer_up_msg(&peer(*h));
+                let (gr, c4) = match BmpMsg::from_octets(b.clone()) {
+                    Ok(BmpMsg::PeerUpNotification(pu)) => (pu.bgp_open_rcvd().capabilities().any(|c| c.typ() == routecore::bgp::message::open::CapabilityType::GracefulRestart), pu.session_config().four_octet_enabled()),
+                    _ => (false, true),
                 };
-                tokens.push(format!("{i}:{token}"));
-                let Some(sess) = sessions.get_mut(*i) else { info.push("nc".into()); notes.push("no-such-connection".into()); continue };
-                // ---- the oracle's expectation, from its own tracker (before the step)
-                let o = &mut osess[*i];
-                enum Want { Nothing, Upd(u32, Upd), Down(u32), Bulk(Vec<u32>) }
-                let mut want = Want::Nothing;
-                let mut new_up: Option<usize> = None;
+                (Some(b), format!("u.{h}.{}.{}", gr as u8, c4 as u8), None)
+            }
+            Some(M::Rm(h, spec)) => {
+                let Some((pdu, pas)) = rm_pdu(spec) else { continue };
+                let b = mk_raw_route_monitoring_msg(&peer(*h).pph(), Bytes::from(pdu));
+                let Some(f) = rm_fields(&b) else { continue };
+                let content = if spec.upd.corrupt != 0 { "M".to_string() } else { format!("{};{};{}", spec.upd.attr, show_nlris(&spec.upd.ann), show_nlris(&spec.upd.wd)) };
+                if spec.upd.corrupt == 0 && !spec.upd.ann.is_empty() { rib.blobs.insert(pas, spec.upd.attr); }
+                (Some(b), format!("r.{h}~{f}~{content}~{}", show_rmspec(spec)), if spec.upd.corrupt == 0 { Some((0, spec.upd.clone())) } else { None })
+            }
+        };
+        tokens.push(format!("{i}:{token}"));
+        if sessions.get(i).is_none() { info.push("nc".into()); notes.push("no-such-connection".into()); continue }
+        if sessions[i].closed { info.push("closed".into()); notes.push(format!("{}-on-closed-connection", if m.is_none() { "loss" } else { "msg" })); continue }
+        // ---- the oracle's expectation, from its own tracker (before the step)
+        let o = &mut osess[i];
+        enum Want { Nothing, Upd(u32, Upd), Down(u32), Bulk(Vec<u32>) }
+        let mut want = Want::Nothing;
+        let mut new_up: Option<usize> = None;
+        let mut ends = false;
+        match m {
+            None => { let ids: Vec<u32> = o.up.values().copied().collect(); o.up.clear(); o.life = 2; ends = true; if !ids.is_empty() { want = Want::Bulk(ids); } }
+            Some(m) => {
                 if o.life == 0 { if *m == M::Init { o.life = 1; } }
                 else if o.life == 1 {
                     match m {
                         M::PeerUp(h) => if !o.up.contains_key(h) { new_up = Some(*h); },
                         M::PeerDown(h) => if let Some(id) = o.up.remove(h) { want = Want::Down(id); },
                         M::Rm(h, _) => if let (Some(id), Some((_, u))) = (o.up.get(h), &wellformed_rm) { want = Want::Upd(*id, u.clone()); },
-                        M::Term => { let ids: Vec<u32> = o.up.values().copied().collect(); o.up.clear(); o.life = 2; if !ids.is_empty() { want = Want::Bulk(ids); } }
+                        M::Term => { let ids: Vec<u32> = o.up.values().copied().collect(); o.up.clear(); o.life = 2; ends = true; if !ids.is_empty() { want = Want::Bulk(ids); } }
                         _ => {}
                     }
                 }
-                let session_level = matches!(want, Want::Down(_) | Want::Bulk(_));
-                let before = if session_level { Some(snapshot(&rib, queries)) } else { None };
-                // ---- the real step
-                let r = std::panic::catch_unwind(std::panic::AssertUnwindSafe(|| sess.stepper.step(bytes)));
-                let (phase, outcome) = match r {
-                    Err(_) => { fails.push(format!("panic:state-machine on {token}")); info.push("panic".into()); continue }
-                    Ok(Err(e)) => { info.push(format!("unparsed:{}", e.replace(' ', "_"))); fails.push(format!("harness:bmp-message-rejected-by-parser {token}")); continue }
-                    Ok(Ok(x)) => x,
-                };
-                let mut emitted: Option<Update> = None;
-                let out_tok = match outcome {
-                    StepOutcome::Invalid(_) => "inv".to_string(),
-                    StepOutcome::Other => "oth".into(),
-                    StepOutcome::Transition => "tr".into(),
-                    StepOutcome::Aborted => "aborted".into(),
-                    StepOutcome::Routing(u) => { let (s, _) = summarize(&u); emitted = Some(u); s }
-                };
-                info.push(format!("{phase}:{out_tok}"));
-                notes.push(format!("msg-{}-{}", token.split(|c| c == '.' || c == '~').next().unwrap_or(""), out_tok.split('.').next().unwrap_or("")));
-                if let Some(h) = new_up {
-                    let b = peer(h);
-                    match sess.stepper.peers().iter().find(|v| v.address == IpAddr::V4(b.addr) && v.asn == b.asn && v.bgp_id == b.bgp_id && v.flags == b.flags && v.distinguisher == b.distinguisher && v.peer_type == b.peer_type) {
-                        Some(v) => { osess[*i].up.insert(h, v.ingress_id); }
-                        None => fails.push(format!("lifecycle:peer-up-on-live-session-not-accepted {token}")),
-                    }
+            }
+        }
+        // ids of peers that are up on *other* connections that are still read: (id, same router address?)
+        let up_elsewhere: Vec<(u32, bool)> = (0..sessions.len()).filter(|j| *j != i && !sessions[*j].closed)
+            .flat_map(|j| { let same = scn.routers[sessions[j].router].addr == scn.routers[sessions[i].router].addr; osess[j].up.values().map(move |id| (*id, same)).collect::<Vec<_>>() }).collect();
+        let before = snapshot(&rib, queries);
+        // ---- the real step: bytes (or end of input) into the real connection, until the handler waits for more or has ended
+        match &bytes { Some(b) => sessions[i].conn.push(Item::Data(b.to_vec())), None => sessions[i].conn.push(Item::Eof) }
+        let done = match settle(&sessions[i].conn) { Some(d) => d, None => { fails.push(format!("engine-stuck on {token}")); info.push("stuck".into()); break } };
+        if done { sessions[i].closed = true; }
+        if done != ends { fails.push(format!("lifecycle:connection-{} {token}", if done { "closed-unexpectedly" } else { "still-read-after-session-end" })); }
+        let ups = drain(&w);
+        info.push(if ups.is_empty() { "-".to_string() } else { join(ups.iter().map(|u| match u { Update::UpstreamStatusChange(_) => "eos".to_string(), u => summarize(u).0 }), "+") });
+        notes.push(format!("{}-{}", match m { None => "loss".to_string(), Some(_) => format!("msg-{}", token.split(|c| c == '.' || c == '~').next().unwrap_or("")) }, if ups.is_empty() { "nothing".to_string() } else { join(ups.iter().map(|u| match u { Update::Bulk(_) => "b", Update::Withdraw(..) => "w", Update::WithdrawBulk(_) => "wb", Update::UpstreamStatusChange(_) => "eos", _ => "other" }), "+") }));
+        if let Some(h) = new_up {
+            let b = peer(h);
+            let rid = sessions[i].rid;
+            let mut ids = register.ids_for_parent(rid);
+            ids.sort();
+            match ids.iter().find(|id| register.get(**id).is_some_and(|x| x.remote_addr == Some(IpAddr::V4(b.addr)) && x.remote_asn.map(|a| a.into_u32()) == Some(b.asn))) {
+                Some(id) => { osess[i].up.insert(h, *id); }
+                None => fails.push(format!("lifecycle:peer-up-on-live-session-not-registered {token}")),
+            }
+        }
+        // ---- (b) what left the unit vs. what the tracker expects
+        let sl: Vec<Vec<u32>> = ups.iter().filter_map(|u| match u { Update::Withdraw(id, None) => Some(vec![*id]), Update::WithdrawBulk(ids) => { let mut v: Vec<u32> = ids.iter().copied().collect(); v.sort(); v.dedup(); Some(v) } _ => None }).collect();
+        let routes: Vec<&Update> = ups.iter().filter(|u| matches!(u, Update::Bulk(ps) if !ps.is_empty()) || matches!(u, Update::Single(_))).collect();
+        let sorted = |v: &Vec<u32>| { let mut w = v.clone(); w.sort(); w.dedup(); w };
+        let named: Vec<u32> = sorted(&sl.iter().flatten().copied().collect());
+        match &want {
+            Want::Upd(..) => if !sl.is_empty() { fails.push(format!("lifecycle:route-monitoring-sent-a-session-level-withdrawal {token} {:?}", sl)); },
+            Want::Down(id) => if sl != vec![vec![*id]] { fails.push(format!("completeness:peer-down-did-not-withdraw-exactly-the-peer id {id} got {:?}", sl)); },
+            Want::Nothing if !ends => { if !sl.is_empty() || !routes.is_empty() { fails.push(format!("lifecycle:update-from-a-message-that-carries-no-route-data {token} -> {}", info.last().unwrap())); } },
+            _ => {}
+        }
+        if ends {
+            let ids = match &want { Want::Bulk(ids) => sorted(ids), _ => vec![] };
+            // the state machine's own withdrawal (Termination with peers up) names exactly the up peers
+            if m.is_some() && !ids.is_empty() && sl.first() != Some(&ids) { fails.push(format!("completeness:termination-did-not-withdraw-exactly-the-up-peers ids {:?} got {:?}", ids, sl)); }
+            if let Some(id) = ids.iter().find(|id| !named.contains(id)) { fails.push(format!("completeness:up-peer-not-withdrawn-at-session-end id {id} named {:?}", named)); }
+            if !routes.is_empty() { fails.push(format!("lifecycle:route-data-sent-at-session-end {token}")); }
+            if !matches!(ups.last(), Some(Update::UpstreamStatusChange(_))) { fails.push(format!("session-end:no-end-of-stream {token} -> {}", info.last().unwrap())); }
+            // exactness: no id of a peer that is up on another connection that is still read
+            if let Some((id, same)) = up_elsewhere.iter().find(|(id, _)| named.contains(id) && !ids.contains(id)) {
+                if *same { shared_seen = true; fails.push(format!("{SHARED_SIG} end of connection {i} withdrew id {id} of a peer that is up on another connection from the same address")); }
+                else { fails.push(format!("isolation:session-end-withdrew-peer-of-another-router connection {i} id {id}")); }
+            }
+        }
+        // ---- the RIB unit, update by update; a snapshot after every session-level withdrawal
+        let emitted_some = !ups.is_empty();
+        for u in ups {
+            let is_sl = matches!(u, Update::Withdraw(..) | Update::WithdrawBulk(..));
+            if let Err(p) = rib.process(u) { fails.push(format!("panic:rib-unit {p}")); }
+            if is_sl { let s = snapshot(&rib, queries); snaps.push(show_snap(&s)); }
+        }
+        let after = snapshot(&rib, queries);
+        match want {
+            Want::Nothing => {
+                if ends { evs_code.push(Ev::DownBulk(named.clone())); }
+                // nothing the property names: the RIB must not change (a session end with no peer up included)
+                if before != after {
+                    let sh = ends && up_elsewhere.iter().any(|(id, same)| *same && named.contains(id));
+                    if sh { shared_seen = true; fails.push(format!("{SHARED_SIG} end of connection {i} (no peer up on it) changed the RIB")); }
+                    else { fails.push(format!("isolation:rib-changed-by-an-event-that-names-no-route {token} before {} after {}", show_snap(&before), show_snap(&after))); }
                 }
-                // ---- (b) what left the state machine vs. what the tracker expects
-                let emitted_ids: Option<Vec<u32>> = match &emitted { Some(Update::Withdraw(id, None)) => Some(vec![*id]), Some(Update::WithdrawBulk(ids)) => { let mut v: Vec<u32> = ids.iter().copied().collect(); v.sort(); v.dedup(); Some(v) } _ => None };
-                match &want {
-                    Want::Nothing => if let Some(u) = &emitted { if !matches!(u, Update::Bulk(ps) if ps.is_empty()) { fails.push(format!("lifecycle:update-from-a-message-that-carries-no-route-data {token} -> {}", summarize(u).0)); } },
-                    Want::Down(id) => if emitted_ids != Some(vec![*id]) { fails.push(format!("completeness:peer-down-did-not-withdraw-exactly-the-peer id {id} got {:?}", emitted_ids)); },
-                    Want::Bulk(ids) => { let mut w = ids.clone(); w.sort(); w.dedup(); if emitted_ids != Some(w.clone()) { fails.push(format!("completeness:termination-did-not-withdraw-exactly-the-up-peers ids {:?} got {:?}", w, emitted_ids)); } },
-                    Want::Upd(..) => {}
+                if ends { checkpoints.push((evs.len(), evs_code.len(), after)); }
+            }
+            Want::Upd(id, u) => {
+                if !emitted_some && matches!(m, Some(M::Rm(_, sp)) if sp.mark && !(sp.upd.ann.is_empty() && sp.upd.wd.is_empty())) { swallowed.push(evs.len()); }
+                evs.push(Ev::Upd(id, u.clone())); evs_code.push(Ev::Upd(id, u));
+            }
+            Want::Down(id) => {
+                evs.push(Ev::Down(id)); evs_code.push(Ev::Down(id));
+                if let Some(f) = isolation(&before, &after, &[id]) { fails.push(f); }
+                checkpoints.push((evs.len(), evs_code.len(), after));
+            }
+            Want::Bulk(ids) => {
+                evs.push(Ev::DownBulk(ids.clone())); evs_code.push(Ev::DownBulk(named.clone()));
+                if let Some(f) = isolation(&before, &after, &ids) {
+                    let sh = up_elsewhere.iter().any(|(id, same)| *same && named.contains(id) && !ids.contains(id));
+                    if sh { shared_seen = true; fails.push(format!("{SHARED_SIG} end of connection {i}: {f}")); } else { fails.push(f); }
                 }
-                // ---- the RIB unit
-                let emitted_some = emitted.is_some();
-                if let Some(u) = emitted {
-                    let sl = matches!(u, Update::Withdraw(..) | Update::WithdrawBulk(..));
-                    if let Err(p) = rib.process(u) { fails.push(format!("panic:rib-unit {p}")); }
-                    if sl { let s = snapshot(&rib, queries); snaps.push(show_snap(&s)); }
-                }
-                match want {
-                    Want::Nothing => {}
-                    Want::Upd(id, u) => {
-                        if !emitted_some && matches!(m, M::Rm(_, sp) if sp.mark && !(sp.upd.ann.is_empty() && sp.upd.wd.is_empty())) { swallowed.push(evs.len()); }
-                        evs.push(Ev::Upd(id, u))
-                    }
-                    Want::Down(id) => { evs.push(Ev::Down(id)); let after = snapshot(&rib, queries); if let Some(f) = isolation(before.as_ref().unwrap(), &after, &[id]) { fails.push(f); } checkpoints.push((evs.len(), after)); }
-                    Want::Bulk(ids) => { evs.push(Ev::DownBulk(ids.clone())); let after = snapshot(&rib, queries); if let Some(f) = isolation(before.as_ref().unwrap(), &after, &ids) { fails.push(f); } checkpoints.push((evs.len(), after)); }
-                }
+                checkpoints.push((evs.len(), evs_code.len(), after));
             }
         }
     }
     let fin = snapshot(&rib, queries);
-    checkpoints.push((evs.len(), fin));
+    checkpoints.push((evs.len(), evs_code.len(), fin));
     // ---- (a)/(c): every checkpoint equals the replay of the tracker's history
-    let agree = |f: SpecFlags| checkpoints.iter().all(|(n, s)| *s == spec_observe(&evs[..*n], queries, f));
+    let agree = |f: SpecFlags| checkpoints.iter().all(|(n, _, s)| *s == spec_observe(&evs[..*n], queries, f));
     if !agree(SpecFlags::default()) {
-        let (n, s) = checkpoints.iter().find(|(n, s)| *s != spec_observe(&evs[..*n], queries, SpecFlags::default())).unwrap();
+        let (n, _, s) = checkpoints.iter().find(|(n, _, s)| *s != spec_observe(&evs[..*n], queries, SpecFlags::default())).unwrap();
         let want = spec_observe(&evs[..*n], queries, SpecFlags::default());
         let first = queries.iter().zip(s.iter().zip(want.iter())).find(|(_, (g, w))| g != w).map(|(p, (g, w))| format!("after {} route events, prefix {} got {} want {}", n, p.show(), show_recs(g), show_recs(w))).unwrap_or_default();
         let sticky = SpecFlags { sticky_down: true, ..Default::default() };
         let overlap = SpecFlags { overlap_withdraws: true, ..Default::default() };
+        let agree_code = |f: SpecFlags| checkpoints.iter().all(|(_, n, s)| *s == spec_observe(&evs_code[..*n], queries, f));
         if agree(sticky) { fails.push(format!("flap:global-withdrawn-marker-never-cleared {first}")); }
         else if agree(overlap) { fails.push(format!("overlap:withdrawal-applied-after-announcement-of-same-update {first}")); }
+        else if shared_seen && (agree_code(SpecFlags::default()) || agree_code(sticky)) { fails.push(format!("{SHARED_SIG} {first}")); }
         else {
             // an End-of-RIB marker next to routes that was swallowed: dropping exactly those UPDATEs explains everything
             let without = |n: usize| -> Vec<Ev> { evs[..n].iter().enumerate().filter(|(k, _)| !swallowed.contains(k)).map(|(_, e)| e.clone()).collect() };
-            let agree_sw = |f: SpecFlags| !swallowed.is_empty() && checkpoints.iter().all(|(n, s)| *s == spec_observe(&without(*n), queries, f));
+            let agree_sw = |f: SpecFlags| !swallowed.is_empty() && checkpoints.iter().all(|(n, _, s)| *s == spec_observe(&without(*n), queries, f));
             if agree_sw(SpecFlags::default()) || agree_sw(sticky) { fails.push(format!("downstream-depends-on-pending-eor:eor-marker-with-routes {first}")); }
             else { fails.push(format!("replay-mismatch {first}")); }
         }
     }
+    // the World's links and gates must be dropped on a worker of the (multi-thread) runtime
+    rt.block_on(async move { let _ = tokio::spawn(async move { w.runner.abort(); drop(w); }).await; });
+    rt.shutdown_timeout(Duration::from_millis(200));
     let case = format!("P|{}|{}|{}", join(queries.iter().map(|p| p.show()), " "), tokens.join(" "), show_scn_routers(&scn.routers));
     let mut all = snaps.clone();
     all.push(rib.observe(queries));
     let imp = format!("{} ## {}", all.join(" | "), info.join(" "));
     // the most specific unknown failure first, known ones last
-    fails.sort_by_key(|f| f.starts_with("flap:") as u8);
+    fails.sort_by_key(|f| (f.starts_with("flap:") as u8) * 2 + f.starts_with(SHARED_SIG) as u8);
     let oracle = match fails.first() { None => "ok".to_string(), Some(f) => format!("fail {f}") };
     let n_ann = evs.iter().filter(|e| matches!(e, Ev::Upd(_, u) if !u.ann.is_empty())).count();
     let n_down = evs.iter().filter(|e| matches!(e, Ev::Down(_) | Ev::DownBulk(_))).count();
@@ -391,11 +457,13 @@ fn gen_scn(rng: &mut Rng, pool: &[Pfx], rec: &mut Recorder) -> Scn {
                 ops.push(Op::Msg(i, M::Rm(k, s)));
             }
             55..=68 => { ops.push(Op::Msg(i, M::PeerDown(k))); rec.bump("op-peer-down"); if rng.chance(3, 5) { ops.push(Op::Msg(i, M::PeerUp(k))); rec.bump("op-peer-up-again"); } }
-            69..=75 => { ops.push(Op::Msg(i, M::Term)); rec.bump("op-termination"); if rng.chance(7, 10) { connect(&mut ops, &mut cur, &mut nsess, rng, &routers, r, false); rec.bump("op-reconnect"); } }
+            69..=71 => { ops.push(Op::Msg(i, M::Term)); rec.bump("op-termination"); if rng.chance(8, 10) { connect(&mut ops, &mut cur, &mut nsess, rng, &routers, r, false); rec.bump("op-reconnect-after-termination"); } }
+            72..=75 => { ops.push(Op::Disconnect(i)); rec.bump("op-connection-lost"); if rng.chance(8, 10) { connect(&mut ops, &mut cur, &mut nsess, rng, &routers, r, false); rec.bump("op-reconnect-after-loss"); } }
             76..=83 => { ops.push(Op::Msg(i, M::PeerUp(k))); rec.bump("op-peer-up"); }
             84..=88 => { ops.push(Op::Msg(i, M::Stats(k))); rec.bump("op-statistics"); }
             89..=91 => { ops.push(Op::Msg(i, M::Init)); rec.bump("op-initiation"); }
-            92..=93 => { connect(&mut ops, &mut cur, &mut nsess, rng, &routers, r, false); rec.bump("op-second-connection-of-a-router"); }
+            92 => { connect(&mut ops, &mut cur, &mut nsess, rng, &routers, r, false); rec.bump("op-second-connection-of-a-router"); }
+            93 => { ops.push(Op::Disconnect(i)); rec.bump("op-connection-lost"); }
             _ => { ops.push(Op::Msg(i, M::PeerDown(k))); rec.bump("op-peer-down"); }
         }
     }
@@ -462,7 +530,20 @@ fn main() {
         Scn { routers: one(false), ops: vec![Op::Connect(0), Op::Msg(0, M::PeerUp(0)), Op::Msg(0, M::Rm(0, ann(4))), Op::Msg(0, M::Init), Op::Msg(0, M::Rm(0, ann(5))), Op::Msg(0, M::PeerDown(0)), Op::Msg(0, M::PeerUp(0)),
             Op::Msg(0, M::PeerUp(0)), Op::Msg(0, M::Rm(0, ann(6))), Op::Msg(0, M::Term), Op::Msg(0, M::Rm(0, ann(8))), Op::Msg(0, M::PeerDown(0)), Op::Msg(3, M::Init)] },
     ];
-    for scn in &corpus { emit(&mut rec, scn, &[p24]); emit(&mut rec, scn, &pool); }
+    let corpus2 = vec![
+        // connection lost with a peer up, reconnect: the router id and the peer id come back, the new announcement (C03)
+        Scn { routers: one(false), ops: with(vec![Op::Msg(0, M::Rm(0, ann(5))), Op::Disconnect(0), Op::Connect(0), Op::Msg(1, M::Init), Op::Msg(1, M::PeerUp(0)), Op::Msg(1, M::Rm(0, ann(7)))]) },
+        // ... not re-announced stays withdrawn; a second loss of the closed connection and traffic on it change nothing
+        Scn { routers: one(false), ops: with(vec![Op::Msg(0, M::Rm(0, ann(5))), Op::Disconnect(0), Op::Disconnect(0), Op::Msg(0, M::Rm(0, ann(6))), Op::Connect(0), Op::Msg(1, M::Init), Op::Msg(1, M::PeerUp(0)), Op::Msg(1, M::Rm(0, wd24.clone()))]) },
+        // two routers: losing one leaves the other's routes alone; a peer that went down earlier is named again by the epilogue
+        Scn { routers: two.clone(), ops: vec![Op::Connect(0), Op::Msg(0, M::Init), Op::Msg(0, M::PeerUp(0)), Op::Msg(0, M::PeerUp(1)), Op::Msg(0, M::Rm(0, ann(5))), Op::Msg(0, M::Rm(1, ann(6))),
+            Op::Connect(1), Op::Msg(1, M::Init), Op::Msg(1, M::PeerUp(0)), Op::Msg(1, M::Rm(0, ann(7))), Op::Msg(0, M::PeerDown(1)), Op::Disconnect(0), Op::Msg(1, M::Rm(0, ann(8))), Op::Disconnect(1)] },
+        // lost before the Initiation message / with no peer up
+        Scn { routers: one(false), ops: vec![Op::Connect(0), Op::Disconnect(0), Op::Connect(0), Op::Msg(1, M::Init), Op::Disconnect(1), Op::Connect(0), Op::Msg(2, M::Init), Op::Msg(2, M::PeerUp(0)), Op::Msg(2, M::Rm(0, ann(5)))] },
+        // KNOWN (C02): a second connection from the same address shares the router id; the end of the stale one withdraws the live one's routes
+        Scn { routers: one(false), ops: with(vec![Op::Msg(0, M::Rm(0, ann(5))), Op::Connect(0), Op::Msg(1, M::Init), Op::Msg(1, M::PeerUp(0)), Op::Msg(1, M::Rm(0, ann(7))), Op::Disconnect(0)]) },
+    ];
+    for scn in corpus.iter().chain(corpus2.iter()) { emit(&mut rec, scn, &[p24]); emit(&mut rec, scn, &pool); }
 
     // ---- generated histories
     let mut rng = Rng::new(args.seed);
